@@ -67,7 +67,7 @@ def run(ctx):
         big.append(dict(shape=list(shape), dtype=dt, out=out, lo=0 if dt == "uint8" else -2000, hi=250 if dt == "uint8" else 9000,
                         nodata=255 if dt == "uint8" else -9999, nodata_frac=[0.0, 0.1, 0.5][k % 3], other_rows=k % 2, seed=int(rng.integers(1, 10 ** 6))))
     acc = []
-    for k in range(4 if ctx.thorough else 2):
+    for k in range(12 if ctx.thorough else 6):
         T, ny, nx, nz = 3, int(rng.integers(2, 12)), int(rng.integers(2, 12)), int(rng.integers(1, 6))
         px = rng.integers(0, 5000, size=(T, ny, nx)).astype(float)
         pl = px.tolist()
@@ -79,8 +79,10 @@ def run(ctx):
                         if rng.random() < 0.1:
                             pl[t][a][b] = None          # NaN pixels must be treated like nodata
         zz = rng.integers(0, nz, size=(ny, nx))
-        zz[rng.random(zz.shape) < 0.1] = -1
-        acc.append(dict(pix=pl, zones=zz.tolist(), num_zones=nz + 1, nodata=-9999, znodata=-1, dtype=dtype, out=["float32", "float64"][k % 2],
+        # zone rasters come in several integer types, each with its customary nodata (all-ones for unsigned types)
+        zdtype, znd = [("int16", -1), ("uint16", 65535), ("uint8", 255), ("int32", -9999), ("uint32", 4294967295), ("int64", -1)][k % 6]
+        zz[rng.random(zz.shape) < 0.15] = znd
+        acc.append(dict(pix=pl, zones=zz.tolist(), num_zones=nz + 1, nodata=-9999, znodata=znd, zdtype=zdtype, dtype=dtype, out=["float32", "float64"][k % 2],
                         name=[None, "zm"][k % 2]))
     res, log = core.run_impl("c16_impl.py", dict(kernel=kernel_all, big=big, acc=acc), timeout=3000)
     if res is None:
